@@ -40,13 +40,30 @@ Proof.
 Qed.
 
 (* ---------- lookup soundness ---------- *)
+Theorem index_lookup_sound s q i :
+  fs_index_of_seq s q = Some i -> exists f, nth_error (frames s) i = Some f /\ fseq f = q.
+Proof.
+  unfold fs_index_of_seq. destruct (fs_slot_of_seq s q) as [j|]; [|discriminate].
+  destruct (nth_error (frames s) j) as [g|] eqn:En; [|discriminate].
+  destruct (fseq g =? q) eqn:Eq; [|discriminate].
+  intros H; inversion H; subst j. exists g. split; [exact En | apply N.eqb_eq, Eq].
+Qed.
+
 Theorem lookup_sound s q f :
   fs_get_by_seq s q = Some f -> fseq f = q /\ In f (frames s).
 Proof.
-  unfold fs_get_by_seq. destruct (fs_index_of_seq s q) as [i|]; [|discriminate].
-  destruct (nth_error (frames s) i) as [g|] eqn:En; [|discriminate].
-  destruct (fseq g =? q) eqn:Eq; [|discriminate].
-  intros H; inversion H; subst g. split; [apply N.eqb_eq, Eq | eapply nth_error_In, En].
+  unfold fs_get_by_seq. destruct (fs_index_of_seq s q) as [i|] eqn:Ei; [|discriminate].
+  destruct (index_lookup_sound _ _ _ Ei) as [g [Hg Hq]]. rewrite Hg. intros H; inversion H; subst g.
+  split; [exact Hq | eapply nth_error_In, Hg].
+Qed.
+
+(* the slot arithmetic alone points at a frame with another seq on a reachable store *)
+Lemma slot_lookup_refuted :
+  exists fs m q i f, fs_slot_of_seq (fold_left fs_push fs (fs_new m)) q = Some i
+    /\ nth_error (frames (fold_left fs_push fs (fs_new m))) i = Some f /\ fseq f <> q.
+Proof.
+  exists [ {| fseq := 0; fid := 100 |}; {| fseq := 5; fid := 105 |} ], 10%nat, 1, 1%nat, {| fseq := 5; fid := 105 |}.
+  split; [vm_compute; reflexivity|]. split; [vm_compute; reflexivity | cbn; lia].
 Qed.
 
 (* the unrepaired lookup returns a different frame on a reachable store (S14) *)
@@ -104,20 +121,26 @@ Proof.
     + apply consec_app; [exact Hc | exact Hf].
 Qed.
 
-Theorem lookup_complete_consecutive s i f :
-  Consec s -> nth_error (frames s) i = Some f ->
-  fs_get_by_seq s (fseq f) = Some f.
+Theorem index_complete_consecutive s i f :
+  Consec s -> nth_error (frames s) i = Some f -> fs_index_of_seq s (fseq f) = Some i.
 Proof.
   unfold Consec. intros Hc Hn.
   pose proof (consec_nth _ _ _ _ Hc Hn) as Hs.
   assert (Hi : (i < length (frames s))%nat) by (apply nth_error_Some; congruence).
-  unfold fs_get_by_seq, fs_index_of_seq.
+  unfold fs_index_of_seq, fs_slot_of_seq.
   destruct (frames s) as [|g l] eqn:Efr; [destruct i; discriminate|].
   rewrite <- Efr in *.
   destruct (fseq f <? base s) eqn:E1; [lia|].
   destruct (nlen (frames s) <=? fseq f - base s) eqn:E2; [unfold nlen in E2; lia|].
   replace (N.to_nat (fseq f - base s)) with i by lia.
   rewrite Hn, N.eqb_refl. reflexivity.
+Qed.
+
+Theorem lookup_complete_consecutive s i f :
+  Consec s -> nth_error (frames s) i = Some f ->
+  fs_get_by_seq s (fseq f) = Some f.
+Proof.
+  intros Hc Hn. unfold fs_get_by_seq. rewrite (index_complete_consecutive s i f Hc Hn). exact Hn.
 Qed.
 
 Lemma nlen_cons_tui {A} (x : A) l : nlen (x :: l) = 1 + nlen l.
